@@ -76,18 +76,20 @@ func typeShort(t types.Type) string {
 // Enc is the per-VC encoder: it owns the SMT header (declarations) and knows how Go
 // types map to sorts.
 type Enc struct {
-	prog     *Prog
-	header   []string
-	declared map[string]bool
-	structs  map[string]*types.Struct // struct sort name -> struct
-	fresh    int
+	prog            *Prog
+	tagOf           map[string]int
+	tagType         map[int]types.Type
+	header          []string
+	declared        map[string]bool
+	structs         map[string]*types.Struct // struct sort name -> struct
+	fresh           int
 	usedAssumptions map[string]bool
 	usedTrusted     map[string]bool
 	usedSpecs       map[string]bool
 }
 
 func newEnc(p *Prog) *Enc {
-	e := &Enc{prog: p, declared: map[string]bool{}, structs: map[string]*types.Struct{}, usedAssumptions: map[string]bool{}, usedTrusted: map[string]bool{}, usedSpecs: map[string]bool{}}
+	e := &Enc{prog: p, declared: map[string]bool{}, structs: map[string]*types.Struct{}, usedAssumptions: map[string]bool{}, usedTrusted: map[string]bool{}, usedSpecs: map[string]bool{}, tagOf: map[string]int{}, tagType: map[int]types.Type{}}
 	e.header = append(e.header,
 		"(declare-datatypes ((Slice 0)) (((mk-slice (sl-arr Int) (sl-len Int) (sl-cap Int)))))",
 		"(declare-datatypes ((Iface 0)) (((mk-iface (if-tag Int) (if-data Int)))))",
@@ -218,12 +220,12 @@ func (e *Enc) zeroOfSort(sort string, t types.Type) string {
 
 func arraySort(k, v string) string { return "(Array " + k + " " + v + ")" }
 
-func sel(a, i string) string      { return "(select " + a + " " + i + ")" }
-func sto(a, i, v string) string   { return "(store " + a + " " + i + " " + v + ")" }
-func eq(a, b string) string       { return "(= " + a + " " + b + ")" }
-func not(a string) string         { return "(not " + a + ")" }
-func implies(a, b string) string  { return "(=> " + a + " " + b + ")" }
-func ite(c, a, b string) string   { return "(ite " + c + " " + a + " " + b + ")" }
+func sel(a, i string) string     { return "(select " + a + " " + i + ")" }
+func sto(a, i, v string) string  { return "(store " + a + " " + i + " " + v + ")" }
+func eq(a, b string) string      { return "(= " + a + " " + b + ")" }
+func not(a string) string        { return "(not " + a + ")" }
+func implies(a, b string) string { return "(=> " + a + " " + b + ")" }
+func ite(c, a, b string) string  { return "(ite " + c + " " + a + " " + b + ")" }
 func and(xs ...string) string {
 	var ys []string
 	for _, x := range xs {
@@ -404,15 +406,27 @@ func (u unsupportedErr) Error() string    { return "outside subset: " + string(u
 // ---------------------------------------------------------------------------------
 // type tags for interfaces
 
-func (p *Prog) typeTag(t types.Type) int {
+// Tags are numbered per function (per Enc), in the order the function's VC meets the types, so a
+// function's queries do not depend on which other functions were encoded before it.
+func (e *Enc) typeTag(t types.Type) int {
 	key := types.TypeString(t, nil)
-	if id, ok := p.tagOf[key]; ok {
+	if id, ok := e.tagOf[key]; ok {
 		return id
 	}
-	id := len(p.tagOf) + 1
-	p.tagOf[key] = id
-	p.tagType[id] = t
+	id := len(e.tagOf) + 1
+	e.tagOf[key] = id
+	e.tagType[id] = t
 	return id
+}
+
+// tagIDs lists the tags allocated so far in increasing order (deterministic query text).
+func (e *Enc) tagIDs() []int {
+	ids := make([]int, 0, len(e.tagType))
+	for id := range e.tagType {
+		ids = append(ids, id)
+	}
+	sort.Ints(ids)
+	return ids
 }
 
 // boxing: values of sort σ carried by an interface are represented by an Int through an
